@@ -36,6 +36,7 @@ def boundary_sizes(rng, b=(4096, 8192, 65536)):
     for bb in b:
         sizes |= {bb - 1, bb, bb + 1, 2 * bb - 1, 2 * bb, 2 * bb + 1, 3 * bb + 7}
     sizes.add(rng.randrange(2, 6 * max(b)))
+    sizes |= {2 ** 20, 2 ** 20 + 1}
     return sorted(sizes)
 
 
